@@ -263,6 +263,8 @@ func (d *motionDetector) updateBackground(new_frame *cptvframe.Frame, prevFFC bo
 			copy(d.background.Pix[y][d.start:d.columnStop], new_frame.Pix[y][d.start:d.columnStop])
 			for x := d.start; x < d.columnStop; x++ {
 				average = average + float64(new_frame.Pix[y][x])/d.numPixels
+				// A background seeded from scratch starts without history.
+				d.backgroundWeight[y][x] = 0
 			}
 			for x := 0; x < d.start; x++ {
 				d.background.Pix[y][x] = new_frame.Pix[y][d.start]
